@@ -282,6 +282,16 @@ namespace bloch::compiler {
             resolveImportPath({"bloch", "lang", "Object"}, entryParent.string());
         if (!stdlibObject.empty()) {
             loadModule(stdlibObject);
+            // the implicit 'import bloch.lang.Object;' is held to the same package rule as a
+            // written one
+            std::vector<std::string> expected{"bloch", "lang"};
+            std::vector<std::string> actual = packagePartsFor(canonicalize(stdlibObject));
+            if (actual != expected) {
+                throw BlochError(ErrorCategory::Semantic, 0, 0,
+                                 "import 'bloch.lang.Object' resolved to package '" +
+                                     formatPackageName(actual) + "', expected '" +
+                                     formatPackageName(expected) + "'");
+            }
         }
 
         loadModule(entryFile);
